@@ -732,3 +732,42 @@ def _get_or_insert_with(ip, st, t, a, rt):
     except (I.Diverge, I.AnalysisIncomplete):
         pass
     return NotImplemented
+
+
+# --- element-wise iterator adaptors: evaluate the closure once on a symbolic item (events only) -----------
+ADAPTOR_RX = r'^(std::iter::Iterator::(map|filter_map|for_each|flat_map|filter|inspect)|rayon::iter::ParallelIterator::(map|filter_map|for_each|flat_map|filter|flat_map_iter)|rayon::iter::IndexedParallelIterator::(map|filter_map))$'
+
+
+@regx(ADAPTOR_RX)
+def _adaptor(ip, st, t, a, rt):
+    """The adaptor's value stays an opaque congruent term.  Its closure is evaluated once on a symbolic
+    item `item(<stream>)` so that rules can inspect what happens per element; abstract state is restored
+    afterwards (no effect of the per-element evaluation leaks into the caller's state)."""
+    if len(a) < 2:
+        return NotImplemented
+    fv = deref(a[1])
+    if not (isinstance(fv, I.St) and isinstance(fv.adt, str) and fv.adt.startswith('closure:')):
+        return NotImplemented
+    path = fv.adt[len('closure:'):]
+    body = ip.facts.by_path.get(path)
+    if not body or len(ip.stack) > ip.max_depth:
+        return NotImplemented
+    body = body[0]
+    if body['arg_count'] != 2:
+        return NotImplemented
+    ity = body['locals'][2]['ty']
+    item = I.mk_sym(nf.app_atom('item', I.frozen(a[0])), ity)
+    snap = ip.snap(st)
+    guard = st.guard
+    n0 = len(ip.events)
+    res = None
+    try:
+        res = ip.call_closure(fv, a[1] if isinstance(a[1], I.Ref) else None, I.tup(item), '?')
+    except (I.Diverge, I.AnalysisIncomplete) as e:
+        res = e
+    finally:
+        ip.restore(st, snap)
+        st.guard = guard
+    ip.closure_runs.append({'term': t, 'closure': path, 'stream': I.frozen(a[0]), 'item': item, 'result': res,
+                            'events': ip.events[n0:], 'body': st.body, 'adaptor': (t.get('callee') or '').rsplit('::', 1)[-1]})
+    return NotImplemented
